@@ -37,3 +37,12 @@ Print Assumptions C29_traverse_refuted_list_str.
 Theorem C29_items_order_refuted : json_items_lt (JInt 5) (JInt 12) = false /\ json_items_lt (JInt 12) (JInt 5) = true.
 Proof. exact items_ordered_as_text. Qed.
 Print Assumptions C29_items_order_refuted.
+
+(* PostgreSQL path literal (documented syntax): the key null is written unquoted and is read as the NULL element; a backslash inside a
+   quoted key is an escape character and disappears *)
+Theorem C29_pg_path_refuted_null_key : pg_array (pg_json_path ascii_only [KKey t_null]) = Some [PNull].
+Proof. exact pg_null_key_unquoted. Qed.
+Print Assumptions C29_pg_path_refuted_null_key.
+Theorem C29_pg_path_refuted_backslash : pg_array (pg_json_path ascii_only [KKey [97; c_bslash; 98]]) = Some [PText [97; 98]].
+Proof. exact pg_backslash_key. Qed.
+Print Assumptions C29_pg_path_refuted_backslash.
